@@ -240,7 +240,7 @@ def main(rep, tier):
             if method == "parse_env":
                 modes = ["default_env=False"] if tier == "quick" else ["default_env=True", "default_env=False"]
             for em in modes:
-                permute = tier == "thorough" and em == "default_env=True"
+                permute = tier == "thorough" and em == "default_env=True" and kind in ("flat", "list") and method == "parse_args"
                 nfix = 1 if method != "parse_args" else (4 if not permute else 5)
                 fixnames = ["dflt1", "dflt2", "dflt1_again", "envcfg", "envvar"][:nfix]
                 for sh in range(2 ** nfix):
